@@ -1,4 +1,5 @@
 import Carquet.Util
+import Driver.Ops.Alloc
 import Driver.Ops.Bloom
 import Driver.Ops.Crc
 import Driver.Ops.Delta
@@ -17,7 +18,8 @@ returned), one verdict line out.  See Carquet/Util.lean for the syntax.
 open Carquet.Util
 
 def handlers : List (Line → Option Verdict) :=
-  [ Driver.Ops.Bloom.handle,
+  [ Driver.Ops.Alloc.handle,
+    Driver.Ops.Bloom.handle,
     Driver.Ops.Crc.handle,
     Driver.Ops.Delta.handle,
     Driver.Ops.Lz4.handle,
